@@ -143,8 +143,9 @@ func c11Oracle(c c11Case) error {
 	}
 	var in io.Reader = hr
 	w := writerFunc(func(b []byte) (int, error) { forwarded += len(b); return len(b), nil })
+	opts, _ := variantOpts(l.x)
 	for calls := 0; calls < len(c.S.Items)+4; calls++ {
-		snap, suffix, err := stack.ScanSnapshot(in, w, plainOpts())
+		snap, suffix, err := stack.ScanSnapshot(in, w, opts)
 		if hr.err != nil {
 			return hr.err
 		}
